@@ -1,2 +1,608 @@
-import Parsley.Model.ObjStm
-import Parsley.Spec.ObjStm
+/-
+  C14 — Object streams yield each object under its identifier.
+
+  Model: Model/ObjStm.lean (ObjStreamP of src/pdf_lib/pdf_streams.rs, after the fix C14-01).
+  Spec:  Spec/ObjStm.lean (header encoder, `Extracts`, `Fresh`).
+
+  Proved for ALL inputs (no size bounds):
+   * `objstm_roundtrip`      a stream whose header is ANY legal layout of N pairs with increasing
+                             offsets, whose content holds at each declared offset an object ending at or
+                             before the next offset (the bytes in between are arbitrary), with fresh
+                             identifiers, through ANY filter chain that decodes to it: the members are
+                             exactly the objects located at the declared offsets, in header order, with
+                             generation 0, and the context binds each (id, 0) to that value and nothing else
+                             changes
+   * `objstm_accepted_wellformed`   conversely: whatever is accepted has exactly /N pairs, increasing
+                             offsets inside the content, no object running past the next offset, fresh and
+                             pairwise distinct identifiers, /First inside the data
+   * `objstm_rejects`        the five rejections of the statement (+ repeated identifier, offset beyond
+                             the content), each as its own theorem, bundled
+   * `objstm_never_panics`   no panic site is reachable (loop fuel, `set_cursor` address arithmetic with
+                             offsets up to 2^63-1, the object parser's sites), for all /N, /First, offsets
+   * `defect17_witness`      the loop as it was before the fix binds id 12 to `22` on the DESIGN input
+-/
+import Parsley.Lemmas.ObjStmMeta
+import Parsley.Lemmas.ObjStmLoop
+namespace Parsley.C14
+open Parsley Parsley.Prim Parsley.Obj Parsley.ObjStm Parsley.ObjStmSpec
+
+/-- The decoded data the parser works on and the absolute start of its buffer: the view itself
+    when the dictionary names no filter, else what the filter chain yields from the cursor on. -/
+def DecodesTo (dec : Decoder) (dict : Dict) (view : Bytes) (cur vbase : Nat) (data : Bytes) (dbase : Nat) : Prop :=
+  ∃ fs, filters dict = .ok fs ∧
+    ((fs = [] ∧ data = view ∧ dbase = vbase) ∨
+     (fs ≠ [] ∧ decodeLoop dec fs (view.drop cur) = .ok data ∧ dbase = 0))
+
+/-- with a good dictionary, a decodable stream and no encryption the parser is `parseViews` on the
+    decoded data -/
+theorem objStmParse_eq (dec : Decoder) (vbase : Nat) (ctx : Ctx) (dict : Dict) (view : Bytes) (cur : Nat)
+    (n first : Nat) (data : Bytes) (dbase : Nat)
+    (hdict : getDictInfo dict = .ok (n, first)) (hdec : DecodesTo dec dict view cur vbase data dbase)
+    (henc : ctx.encrypted = false) :
+    objStmParse dec vbase ctx dict view cur = parseViews dbase ctx n first data := by
+  obtain ⟨fs, hfs, h⟩ := hdec
+  unfold objStmParse
+  simp only [hdict, hfs, henc, Bool.false_eq_true, if_false]
+  rcases h with ⟨h1, h2, h3⟩ | ⟨h1, h2, h3⟩
+  · subst h1 h2 h3; rfl
+  · cases fs with
+    | nil => exact absurd rfl h1
+    | cons f t => simp only [h2, h3]
+
+theorem dictInfo_ok (dict : Dict) (n first : Nat) (ht : getName dict kType = some nObjStm)
+    (hn : getUsize dict kN = some n) (hf : getUsize dict kFirst = some first) :
+    getDictInfo dict = .ok (n, first) := by
+  simp [getDictInfo, ht, hn, hf]
+
+theorem layouts_length (es : List HdrEntry) (b : Bool) (hl : layoutsOK b es = true) :
+    es.length ≤ (encodeHeader es).length := by
+  induction es generalizing b with
+  | nil => simp
+  | cons e t ih =>
+    simp only [layoutsOK, layoutOK, Bool.and_eq_true, Bool.not_eq_true', List.isEmpty_eq_false_iff] at hl
+    have := ih false hl.2
+    have hm : e.mid.length ≠ 0 := fun h => hl.1.1.2 (List.length_eq_zero_iff.mp h)
+    simp only [encodeHeader, List.length_append, List.length_cons, encodePair_length]
+    omega
+
+theorem extracts_ids (rd : Reader) (size : Nat) : ∀ (pairs : Meta) (e : Nat) (r : List (Nat × Located Obj)),
+    Extracts rd size e pairs r → r.map (·.1) = pairs.map (·.1) := by
+  intro pairs
+  induction pairs with
+  | nil => intro e r h; simp only [Extracts] at h; subst h; rfl
+  | cons p t ih =>
+    obtain ⟨id, ofs⟩ := p
+    intro e r h
+    obtain ⟨o, r1, rfl, -, -, -, h1⟩ := h
+    simp [ih _ _ h1]
+
+/-- **`objstm_roundtrip`** -/
+theorem objstm_roundtrip (dec : Decoder) (vbase : Nat) (ctx : Ctx) (dict : Dict) (view : Bytes) (cur : Nat)
+    (n first : Nat) (data : Bytes) (dbase : Nat)
+    (es : List HdrEntry) (tail content : Bytes) (r : List (Nat × Located Obj))
+    -- the dictionary: /Type /ObjStm, /N n, /First first; any supported filter chain, not encrypted
+    (hdict : getDictInfo dict = .ok (n, first))
+    (hdec : DecodesTo dec dict view cur vbase data dbase) (henc : ctx.encrypted = false)
+    -- the decoded data: a header of n pairs in any legal layout, anything up to /First, the content
+    (hdata : data = (encodeHeader es ++ tail) ++ content) (hfirst : first = (encodeHeader es ++ tail).length)
+    (hn : es.length = n) (hne : es ≠ []) (hl : layoutsOK true es = true) (hb : Bounded es)
+    (hinc : List.Pairwise (· < ·) (es.map (·.ofs)))
+    (htail : ∀ y, tail.head? = some y → isDigit y = false) (hcontent : content ≠ [])
+    -- the context: depth fields consistent, the map an ordered map, buffers below 2^63 bytes
+    (hdepth : ctx.depth.cur ≤ ctx.depth.max) (hsorted : DefsSorted ctx.defs) (hbase : dbase + first ≤ 2 ^ 63)
+    -- at every declared offset there is an object that ends at or before the next declared offset
+    (hex : Extracts (readAt ctx.depth content) content.length 0 (declared es) r)
+    -- identifiers pairwise distinct and not yet defined
+    (hfresh : Fresh (definedIn ctx.defs) (es.map (·.id))) :
+    ∃ ctx', objStmParse dec vbase ctx dict view cur = (.ok (r.map mkMember), ctx') ∧
+      -- header order, generation 0, each member is the object located at its declared offset
+      r.map (·.1) = es.map (·.id) ∧ (∀ m ∈ r.map mkMember, m.gen = 0) ∧
+      (∀ p ∈ r, ∃ id ofs, (id, ofs) ∈ declared es ∧ p.1 = id ∧ readAt ctx.depth content ofs = some p.2) ∧
+      -- the context binds exactly these
+      (∀ p ∈ r, defsGet (p.1, 0) ctx'.defs = some p.2.val) ∧
+      (∀ k, (∀ e ∈ es, k ≠ (e.id, 0)) → defsGet k ctx'.defs = defsGet k ctx.defs) ∧
+      ctx'.depth = ctx.depth := by
+  rw [objStmParse_eq dec vbase ctx dict view cur n first data dbase hdict hdec henc]
+  have hids : (declared es).map (·.1) = es.map (·.id) := by simp [declared]
+  have hflen : first ≤ data.length := by rw [hdata, hfirst]; simp
+  have htake : data.take first = encodeHeader es ++ tail := by
+    rw [hdata, hfirst]; exact List.take_left
+  have hdrop : data.drop first = content := by
+    rw [hdata, hfirst]; exact List.drop_left
+  have hlt : first < data.length := by
+    rw [hdata, hfirst]
+    have : content.length ≠ 0 := fun h => hcontent (List.length_eq_zero_iff.mp h)
+    simp only [List.length_append]; omega
+  have hbnd : ∀ p ∈ declared es, p.2 ≤ i64Max := by
+    intro p hp
+    obtain ⟨e, he, rfl⟩ := List.mem_map.mp hp
+    exact (hb e he).2
+  -- the header
+  have hmeta : parseMetadata (data.take first) n = (.ok (declared es), (encodeHeader es).length) := by
+    rw [htake]
+    unfold parseMetadata
+    have hlen := layouts_length es true hl
+    obtain ⟨f, hf⟩ : ∃ f, (encodeHeader es ++ tail).length + 1 = f + es.length :=
+      ⟨(encodeHeader es ++ tail).length + 1 - es.length, by simp only [List.length_append] at *; omega⟩
+    rw [hf]
+    have := metaLoop_accept n es f [] tail 0 [] true hne hl hb (by simpa using chainOK_false es 0 hinc)
+      (by simpa using hn) htail
+    simpa using this
+  -- the content
+  have hfr : Fresh (definedIn ctx.defs) ((declared es).map (·.1)) := by rw [hids]; exact hfresh
+  obtain ⟨ctx', hrun⟩ := streamLoop_complete (dbase + first) content ctx.depth hdepth hbase
+    (declared es) ctx 0 [] r rfl hbnd hex hfr
+  have hgood := streamLoop_good (dbase + first) content ctx.depth hdepth hbase (declared es) ctx 0 [] rfl hsorted hbnd
+  rw [hrun] at hgood
+  obtain ⟨r', h1, h2, -, h4, -, -, h7, h8⟩ := hgood
+  have hrr : r' = r := extracts_unique _ _ _ _ _ _ h2 hex
+  subst hrr
+  refine ⟨ctx', ?_, ?_, ?_, ?_, h7, ?_, h4⟩
+  · unfold parseViews
+    simp only [hflen, hlt, hmeta, hdrop, decide_true, Bool.not_true, Bool.false_eq_true, if_false]
+    simpa using hrun
+  · rw [extracts_ids _ _ _ _ _ hex, hids]
+  · intro m hm
+    obtain ⟨p, -, rfl⟩ := List.mem_map.mp hm
+    rfl
+  · -- each member is read at the offset declared for its identifier
+    have : ∀ (pairs : Meta) (e : Nat) (r : List (Nat × Located Obj)),
+        Extracts (readAt ctx.depth content) content.length e pairs r →
+        ∀ p ∈ r, ∃ id ofs, (id, ofs) ∈ pairs ∧ p.1 = id ∧ readAt ctx.depth content ofs = some p.2 := by
+      intro pairs
+      induction pairs with
+      | nil => intro e r h; simp only [Extracts] at h; subst h; intro p hp; cases hp
+      | cons q t ih =>
+        obtain ⟨id, ofs⟩ := q
+        intro e r h
+        obtain ⟨o, r1, rfl, -, -, ho, h1⟩ := h
+        intro p hp
+        simp only [List.mem_cons] at hp
+        rcases hp with hp | hp
+        · subst hp; exact ⟨id, ofs, List.mem_cons_self, rfl, ho⟩
+        · obtain ⟨id', ofs', hm, h2, h3⟩ := ih _ _ h1 p hp
+          exact ⟨id', ofs', List.mem_cons_of_mem _ hm, h2, h3⟩
+    exact this _ _ _ hex
+  · intro k hk
+    apply h8
+    intro id hid
+    rw [hids] at hid
+    obtain ⟨e, he, rfl⟩ := List.mem_map.mp hid
+    exact hk e he
+
+/-! ## what is accepted is well formed; nothing panics -/
+
+/-- the guarantee of `parseViews` for EVERY input -/
+def ViewsGood (ctx : Ctx) (n first : Nat) (data : Bytes) : SR → Prop
+  | (.ok res, ctx') =>
+    first < data.length ∧
+    ∃ md c r, parseMetadata (data.take first) n = (.ok md, c) ∧
+      md.length = n ∧ List.Pairwise (· < ·) (md.map (·.2)) ∧
+      Extracts (readAt ctx.depth (data.drop first)) (data.drop first).length 0 md r ∧
+      Fresh (definedIn ctx.defs) (md.map (·.1)) ∧
+      res = r.map mkMember ∧
+      ctx'.depth = ctx.depth ∧ DefsSorted ctx'.defs ∧
+      (∀ p ∈ r, defsGet (p.1, 0) ctx'.defs = some p.2.val) ∧
+      (∀ k, (∀ id ∈ md.map (·.1), k ≠ (id, 0)) → defsGet k ctx'.defs = defsGet k ctx.defs)
+  | (.err _, _) => True
+  | (.panic _, _) => False
+
+theorem parseViews_good (dbase : Nat) (ctx : Ctx) (n first : Nat) (data : Bytes)
+    (hdepth : ctx.depth.cur ≤ ctx.depth.max) (hsorted : DefsSorted ctx.defs) (hbase : dbase + data.length ≤ 2 ^ 63) :
+    ViewsGood ctx n first data (parseViews dbase ctx n first data) := by
+  unfold parseViews
+  split
+  · trivial
+  · rename_i hfl
+    have hfl' : first ≤ data.length := by simpa using hfl
+    have hm := parseMetadata_good (data.take first) n
+    split
+    · trivial
+    · rename_i heq; rw [heq] at hm; exact hm.elim
+    · rename_i md c heq
+      rw [heq] at hm
+      obtain ⟨m1, m2, m3⟩ := hm
+      split
+      · trivial
+      · rename_i hlt
+        have hlt' : first < data.length := by simpa using hlt
+        have hg := streamLoop_good (dbase + first) (data.drop first) ctx.depth hdepth (by omega) md ctx 0 [] rfl hsorted m3
+        revert hg
+        generalize streamLoop (dbase + first) (data.drop first) md ctx 0 [] = res
+        obtain ⟨r0, ctx'⟩ := res
+        cases r0 with
+        | err k => intro _; trivial
+        | panic p => intro h; exact h
+        | ok res =>
+          intro ⟨r, h1, h2, h3, h4, _, h6, h7, h8⟩
+          exact ⟨hlt', md, c, r, heq, m1, m2, h2, h3, by simpa using h1, h4, h6, h7, h8⟩
+
+theorem getDictInfo_no_panic (d : Dict) (p : String) : getDictInfo d ≠ .panic p := by
+  unfold getDictInfo
+  split
+  · simp
+  · split
+    · simp
+    · split
+      · simp
+      · split <;> simp
+
+theorem filtersZip_no_panic (fa da : List Obj) (acc : List Filter) (p : String) :
+    filtersZip fa da acc ≠ .panic p := by
+  induction fa generalizing da acc with
+  | nil => simp [filtersZip]
+  | cons f ft ih =>
+    cases da with
+    | nil => simp [filtersZip]
+    | cons d dt =>
+      unfold filtersZip
+      split
+      · exact ih _ _
+      · exact ih _ _
+      · simp
+      · simp
+
+theorem filtersNames_no_panic (fa : List Obj) (acc : List Filter) (p : String) :
+    filtersNames fa acc ≠ .panic p := by
+  induction fa generalizing acc with
+  | nil => simp [filtersNames]
+  | cons f ft ih =>
+    cases f <;> simp [filtersNames, ih]
+
+theorem filters_no_panic (d : Dict) (p : String) : filters d ≠ .panic p := by
+  unfold filters
+  split
+  · split
+    · simp
+    · split <;> simp
+  · split
+    · split
+      · split
+        · simp
+        · exact filtersZip_no_panic _ _ _ _
+      · exact filtersNames_no_panic _ _ _
+    · simp
+
+def DecGood : Res Bytes → Prop
+  | .ok data => data.length ≤ 2 ^ 63
+  | .err _ => True
+  | .panic _ => False
+
+theorem decodeLoop_good (dec : Decoder) (hnp : ∀ f d p, dec f d ≠ .panic p)
+    (hlen : ∀ f d d', dec f d = .ok d' → d'.length ≤ 2 ^ 63) :
+    ∀ (fs : List Filter) (d : Bytes), fs ≠ [] → DecGood (decodeLoop dec fs d) := by
+  intro fs
+  induction fs with
+  | nil => intro d h; exact absurd rfl h
+  | cons f t ih =>
+    intro d _
+    unfold decodeLoop
+    split
+    · trivial
+    · cases hd : dec f d with
+      | err k => trivial
+      | panic p => exact absurd hd (hnp f d p)
+      | ok d' =>
+        simp only
+        cases t with
+        | nil => simpa [decodeLoop, DecGood] using hlen f d d' hd
+        | cons f2 t2 => exact ih d' (by simp)
+
+/-- **`objstm_never_panics`**: for every dictionary (so every /N, /First), every view and cursor,
+    every header and content (so every offset up to the largest integer the header syntax admits):
+    no panic site is reachable, provided the decoders do not panic and buffers are smaller than
+    2^63 bytes (Rust allocations are at most `isize::MAX` bytes). -/
+theorem objstm_never_panics (dec : Decoder) (vbase : Nat) (ctx : Ctx) (dict : Dict) (view : Bytes) (cur : Nat)
+    (hnp : ∀ f d p, dec f d ≠ .panic p) (hlen : ∀ f d d', dec f d = .ok d' → d'.length ≤ 2 ^ 63)
+    (hview : vbase + view.length ≤ 2 ^ 63)
+    (hdepth : ctx.depth.cur ≤ ctx.depth.max) (hsorted : DefsSorted ctx.defs) :
+    (objStmParse dec vbase ctx dict view cur).1.isPanic = false := by
+  unfold objStmParse
+  have h1 := getDictInfo_no_panic dict
+  split
+  · rfl
+  · rename_i p heq; exact absurd heq (h1 p)
+  · rename_i n first heq
+    have h2 := filters_no_panic dict
+    split
+    · rfl
+    · rename_i p heq2; exact absurd heq2 (h2 p)
+    · rename_i fs heq2
+      split
+      · rfl
+      · split
+        · have := parseViews_good vbase ctx n first view hdepth hsorted hview
+          revert this
+          generalize parseViews vbase ctx n first view = res
+          obtain ⟨r0, c'⟩ := res
+          cases r0 <;> simp [ViewsGood, Res.isPanic]
+        · rename_i f t
+          have hd := decodeLoop_good dec hnp hlen (f :: t) (view.drop cur) (by simp)
+          split
+          · rfl
+          · rename_i p heq3; rw [heq3] at hd; exact hd.elim
+          · rename_i data heq3
+            rw [heq3] at hd
+            have := parseViews_good 0 ctx n first data hdepth hsorted (by simpa [DecGood] using hd)
+            revert this
+            generalize parseViews 0 ctx n first data = res
+            obtain ⟨r0, c'⟩ := res
+            cases r0 <;> simp [ViewsGood, Res.isPanic]
+
+/-- **`objstm_accepted_wellformed`**: an accepted stream has /First inside the data, a header of
+    exactly /N pairs with strictly increasing offsets, at each offset an object that ends at or
+    before the next one, identifiers pairwise distinct and previously undefined; the members are
+    those objects in header order with generation 0 and the context binds them. -/
+theorem objstm_accepted_wellformed (dec : Decoder) (vbase : Nat) (ctx : Ctx) (dict : Dict) (view : Bytes) (cur : Nat)
+    (n first : Nat) (data : Bytes) (dbase : Nat) (res : List Member) (ctx' : Ctx)
+    (hdict : getDictInfo dict = .ok (n, first)) (hdec : DecodesTo dec dict view cur vbase data dbase)
+    (henc : ctx.encrypted = false)
+    (hdepth : ctx.depth.cur ≤ ctx.depth.max) (hsorted : DefsSorted ctx.defs) (hbase : dbase + data.length ≤ 2 ^ 63)
+    (h : objStmParse dec vbase ctx dict view cur = (.ok res, ctx')) :
+    ViewsGood ctx n first data (.ok res, ctx') := by
+  rw [objStmParse_eq dec vbase ctx dict view cur n first data dbase hdict hdec henc] at h
+  have := parseViews_good dbase ctx n first data hdepth hsorted hbase
+  rw [h] at this
+  exact this
+
+/-! ## the rejections of the statement -/
+
+def IsErr {α : Type} (r : Res α) : Prop := ∃ k, r = .err k
+
+/-- an outcome that is neither acceptance nor panic is a rejection -/
+theorem isErr_of_views (ctx : Ctx) (n first : Nat) (data : Bytes) (x : SR)
+    (hg : ViewsGood ctx n first data x) (hno : ∀ res c', x = (.ok res, c') → False) : IsErr x.1 := by
+  obtain ⟨r0, c'⟩ := x
+  cases r0 with
+  | ok res => exact (hno res c' rfl).elim
+  | err k => exact ⟨k, rfl⟩
+  | panic p => exact hg.elim
+
+/-- (1) **non-increasing offsets** (header level) -/
+theorem header_order_rejected (n : Nat) (good : List HdrEntry) (bad : HdrEntry) (more : List HdrEntry)
+    (tail : Bytes) (b : Bool)
+    (hg : good ≠ []) (hl : layoutsOK b (good ++ bad :: more) = true) (hb : Bounded (good ++ bad :: more))
+    (hinc : List.Pairwise (· < ·) (good.map (·.ofs))) (hn : good.length < n)
+    (hbad : bad.ofs ≤ lastOfs 0 good)
+    (hr : ∀ y, tail.head? = some y → isDigit y = false) :
+    (parseMetadata (encodeHeader (good ++ bad :: more) ++ tail) n).1 = .err .guard := by
+  unfold parseMetadata
+  have hlen := layouts_length (good ++ bad :: more) b hl
+  obtain ⟨f, hf⟩ : ∃ f, (encodeHeader (good ++ bad :: more) ++ tail).length + 1 = f + 1 + good.length :=
+    ⟨(encodeHeader (good ++ bad :: more) ++ tail).length - good.length, by
+      simp only [List.length_append, List.length_cons] at *; omega⟩
+  rw [hf]
+  have := metaLoop_order n good bad more f [] tail b hg hl hb (chainOK_false good 0 hinc) hn hbad hr
+  simpa using this
+
+/-- (2) **fewer than /N pairs** (header level) -/
+theorem header_short_rejected (n : Nat) (es : List HdrEntry) (w rest : Bytes) (b : Bool)
+    (hl : layoutsOK b es = true) (hb : Bounded es) (hinc : List.Pairwise (· < ·) (es.map (·.ofs)))
+    (hn : es.length < n) (hw : allWs w = true)
+    (hr : ∀ y, rest.head? = some y → isDigit y = false ∧ y ≠ 45 ∧ y ≠ 43 ∧ isWsEol y = false ∧ y ≠ 37) :
+    (parseMetadata (encodeHeader es ++ (w ++ rest)) n).1 = .err .guard := by
+  unfold parseMetadata
+  have hlen := layouts_length es b hl
+  obtain ⟨f, hf⟩ : ∃ f, (encodeHeader es ++ (w ++ rest)).length + 1 = f + 1 + es.length :=
+    ⟨(encodeHeader es ++ (w ++ rest)).length - es.length, by simp only [List.length_append] at *; omega⟩
+  rw [hf]
+  have := metaLoop_short n es f [] w rest b hl hb (chainOK_false es 0 hinc) hn hw hr
+  simpa using this
+
+section rejects
+variable (dec : Decoder) (vbase : Nat) (ctx : Ctx) (dict : Dict) (view : Bytes) (cur : Nat)
+  (n first : Nat) (data : Bytes) (dbase : Nat)
+  (hdict : getDictInfo dict = .ok (n, first)) (hdec : DecodesTo dec dict view cur vbase data dbase)
+  (henc : ctx.encrypted = false)
+include hdict hdec henc
+
+/-- a header that `parse_metadata` rejects makes the whole stream rejected -/
+theorem rejected_of_header (k : ErrK) (hm : (parseMetadata (data.take first) n).1 = .err k) :
+    IsErr (objStmParse dec vbase ctx dict view cur).1 := by
+  rw [objStmParse_eq dec vbase ctx dict view cur n first data dbase hdict hdec henc]
+  unfold parseViews
+  split
+  · exact ⟨_, rfl⟩
+  · split
+    · exact ⟨_, rfl⟩
+    · rename_i heq; rw [heq] at hm; cases hm
+    · rename_i heq; rw [heq] at hm; cases hm
+
+/-- (3) **/First beyond the data** (at or past its end: no content is left) -/
+theorem first_beyond_rejected (hf : data.length ≤ first) :
+    IsErr (objStmParse dec vbase ctx dict view cur).1 := by
+  rw [objStmParse_eq dec vbase ctx dict view cur n first data dbase hdict hdec henc]
+  unfold parseViews
+  split
+  · exact ⟨_, rfl⟩
+  · have hm := parseMetadata_good (data.take first) n
+    split
+    · exact ⟨_, rfl⟩
+    · rename_i heq; rw [heq] at hm; exact hm.elim
+    · split
+      · exact ⟨_, rfl⟩
+      · rename_i hlt
+        have : first < data.length := by simpa using hlt
+        omega
+
+variable (hdepth : ctx.depth.cur ≤ ctx.depth.max) (hsorted : DefsSorted ctx.defs) (hbase : dbase + data.length ≤ 2 ^ 63)
+  (md : Meta) (c : Nat) (hmeta : parseMetadata (data.take first) n = (.ok md, c))
+include hdepth hsorted hbase hmeta
+
+/-- whatever is accepted extracts the header that was read -/
+theorem accepted_extracts (res : List Member) (ctx' : Ctx)
+    (h : objStmParse dec vbase ctx dict view cur = (.ok res, ctx')) :
+    ∃ r, Extracts (readAt ctx.depth (data.drop first)) (data.drop first).length 0 md r ∧
+      Fresh (definedIn ctx.defs) (md.map (·.1)) := by
+  have hw := objstm_accepted_wellformed dec vbase ctx dict view cur n first data dbase res ctx' hdict hdec henc
+    hdepth hsorted hbase h
+  obtain ⟨-, md', c', r, h1, -, -, h4, h5, -⟩ := hw
+  rw [hmeta] at h1
+  cases h1
+  exact ⟨r, h4, h5⟩
+
+theorem rejected_of_not_wellformed
+    (hbadness : ∀ r, Extracts (readAt ctx.depth (data.drop first)) (data.drop first).length 0 md r →
+      Fresh (definedIn ctx.defs) (md.map (·.1)) → False) :
+    IsErr (objStmParse dec vbase ctx dict view cur).1 := by
+  have hg := parseViews_good dbase ctx n first data hdepth hsorted hbase
+  rw [← objStmParse_eq dec vbase ctx dict view cur n first data dbase hdict hdec henc] at hg
+  apply isErr_of_views ctx n first data _ hg
+  intro res c' h
+  obtain ⟨r, h1, h2⟩ := accepted_extracts dec vbase ctx dict view cur n first data dbase hdict hdec henc
+    hdepth hsorted hbase md c hmeta res c' h
+  exact hbadness r h1 h2
+
+/-- (4) **object data that runs past the next declared offset** -/
+theorem overrun_rejected (a b : Meta) (id1 o1 id2 o2 : Nat) (obj : Located Obj)
+    (hmd : md = a ++ (id1, o1) :: (id2, o2) :: b)
+    (hread : readAt ctx.depth (data.drop first) o1 = some obj) (hover : o2 < obj.stop) :
+    IsErr (objStmParse dec vbase ctx dict view cur).1 := by
+  apply rejected_of_not_wellformed dec vbase ctx dict view cur n first data dbase hdict hdec henc
+    hdepth hsorted hbase md c hmeta
+  intro r hex _
+  subst hmd
+  have : ∀ (a : Meta) (e : Nat) (r : List (Nat × Located Obj)),
+      Extracts (readAt ctx.depth (data.drop first)) (data.drop first).length e (a ++ (id1, o1) :: (id2, o2) :: b) r → False := by
+    intro a
+    induction a with
+    | nil =>
+      intro e r h
+      obtain ⟨o, r1, -, -, -, ho, h1⟩ := h
+      obtain ⟨o', r2, -, hle, -, -, -⟩ := h1
+      rw [hread] at ho; cases ho
+      omega
+    | cons p t ih =>
+      obtain ⟨id, ofs⟩ := p
+      intro e r h
+      obtain ⟨o, r1, -, -, -, -, h1⟩ := h
+      exact ih _ _ h1
+  exact this a 0 r hex
+
+/-- (5) **an identifier already defined in the context** -/
+theorem defined_rejected (id : Nat) (hid : id ∈ md.map (·.1)) (hdef : defsGet (id, 0) ctx.defs ≠ none) :
+    IsErr (objStmParse dec vbase ctx dict view cur).1 := by
+  apply rejected_of_not_wellformed dec vbase ctx dict view cur n first data dbase hdict hdec henc
+    hdepth hsorted hbase md c hmeta
+  intro r _ hfr
+  have := hfr.2 id hid
+  simp only [definedIn] at this
+  cases h : defsGet (id, 0) ctx.defs with
+  | none => exact hdef h
+  | some v => rw [h] at this; cases this
+
+/-- (5') an identifier declared twice -/
+theorem repeated_rejected (hrep : ¬ (md.map (·.1)).Nodup) :
+    IsErr (objStmParse dec vbase ctx dict view cur).1 := by
+  apply rejected_of_not_wellformed dec vbase ctx dict view cur n first data dbase hdict hdec henc
+    hdepth hsorted hbase md c hmeta
+  intro r _ hfr
+  exact hrep hfr.1
+
+/-- (6) an offset beyond the content -/
+theorem offset_beyond_rejected (id ofs : Nat) (hin : (id, ofs) ∈ md) (hbey : (data.drop first).length < ofs) :
+    IsErr (objStmParse dec vbase ctx dict view cur).1 := by
+  apply rejected_of_not_wellformed dec vbase ctx dict view cur n first data dbase hdict hdec henc
+    hdepth hsorted hbase md c hmeta
+  intro r hex _
+  have : ∀ (md : Meta) (e : Nat) (r : List (Nat × Located Obj)), (id, ofs) ∈ md →
+      Extracts (readAt ctx.depth (data.drop first)) (data.drop first).length e md r → False := by
+    intro md
+    induction md with
+    | nil => intro e r h; cases h
+    | cons p t ih =>
+      obtain ⟨id', ofs'⟩ := p
+      intro e r hmem h
+      obtain ⟨o, r1, -, -, hle, -, h1⟩ := h
+      simp only [List.mem_cons] at hmem
+      rcases hmem with hmem | hmem
+      · cases hmem; omega
+      · exact ih _ _ hmem h1
+  exact this md 0 r hin hex
+
+end rejects
+
+/-- (1) non-increasing offsets, at the level of the whole parser -/
+theorem objstm_rejects_order (dec : Decoder) (vbase : Nat) (ctx : Ctx) (dict : Dict) (view : Bytes) (cur : Nat)
+    (n first : Nat) (data : Bytes) (dbase : Nat)
+    (hdict : getDictInfo dict = .ok (n, first)) (hdec : DecodesTo dec dict view cur vbase data dbase)
+    (henc : ctx.encrypted = false)
+    (good : List HdrEntry) (bad : HdrEntry) (more : List HdrEntry) (tail : Bytes)
+    (htake : data.take first = encodeHeader (good ++ bad :: more) ++ tail)
+    (hg : good ≠ []) (hl : layoutsOK true (good ++ bad :: more) = true) (hb : Bounded (good ++ bad :: more))
+    (hinc : List.Pairwise (· < ·) (good.map (·.ofs))) (hn : good.length < n)
+    (hbad : bad.ofs ≤ lastOfs 0 good)
+    (hr : ∀ y, tail.head? = some y → isDigit y = false) :
+    IsErr (objStmParse dec vbase ctx dict view cur).1 :=
+  rejected_of_header dec vbase ctx dict view cur n first data dbase hdict hdec henc .guard
+    (by rw [htake]; exact header_order_rejected n good bad more tail true hg hl hb hinc hn hbad hr)
+
+/-- (2) fewer than /N pairs, at the level of the whole parser -/
+theorem objstm_rejects_short (dec : Decoder) (vbase : Nat) (ctx : Ctx) (dict : Dict) (view : Bytes) (cur : Nat)
+    (n first : Nat) (data : Bytes) (dbase : Nat)
+    (hdict : getDictInfo dict = .ok (n, first)) (hdec : DecodesTo dec dict view cur vbase data dbase)
+    (henc : ctx.encrypted = false)
+    (es : List HdrEntry) (w rest : Bytes)
+    (htake : data.take first = encodeHeader es ++ (w ++ rest))
+    (hl : layoutsOK true es = true) (hb : Bounded es) (hinc : List.Pairwise (· < ·) (es.map (·.ofs)))
+    (hn : es.length < n) (hw : allWs w = true)
+    (hr : ∀ y, rest.head? = some y → isDigit y = false ∧ y ≠ 45 ∧ y ≠ 43 ∧ isWsEol y = false ∧ y ≠ 37) :
+    IsErr (objStmParse dec vbase ctx dict view cur).1 :=
+  rejected_of_header dec vbase ctx dict view cur n first data dbase hdict hdec henc .guard
+    (by rw [htake]; exact header_short_rejected n es w rest true hl hb hinc hn hw hr)
+
+/-! ## concrete instances (non-vacuity) and the witness of defect #17 -/
+
+/-- a decidable digest of an outcome: (id, generation, start, end) of every member -/
+def digest (x : SR) : Option (List (Nat × Nat × Nat × Nat)) :=
+  match x.1 with
+  | .ok ms => some (ms.map fun m => (m.num, m.gen, m.obj.start, m.obj.stop))
+  | _ => none
+
+def isInt (v : Obj) (n : Int) : Bool := match v with | .int k => k == n | _ => false
+
+def noDec : Decoder := fun _ _ => .err .transform
+def ctx0 : Ctx := ⟨[], ⟨0, 4⟩, false⟩
+def dict17 : Dict := [(kFirst, .int 10), (kN, .int 2), (kType, .name nObjStm)]
+/-- `11 0 12 6 11 22 33`: header `11 0 12 6 `, content `11 22 33` (DESIGN.md section 4, #17) -/
+def view17 : Bytes := [49, 49, 32, 48, 32, 49, 50, 32, 54, 32, 49, 49, 32, 50, 50, 32, 51, 51]
+def content17 : Bytes := view17.drop 10
+
+/-- the fixed parser binds id 12 to the object at offset 6 (`33`, span [6,8)) … -/
+example : digest (objStmParse noDec 0 ctx0 dict17 view17 0) = some [(11, 0, 0, 2), (12, 0, 6, 8)] := by decide
+example : (match (objStmParse noDec 0 ctx0 dict17 view17 0) with
+    | (.ok [a, b], c) => isInt a.obj.val 11 && isInt b.obj.val 33 &&
+        (match defsGet (12, 0) c.defs with | some v => isInt v 33 | none => false)
+    | _ => false) = true := by decide
+
+/-- … **`defect17_witness`**: the loop as it was before the fix bound id 12 to the bytes after the
+    previous object (`22`, span [3,5)) -/
+theorem defect17_witness :
+    (match streamLoopOld content17 [(11, 0), (12, 6)] ctx0 0 [] with
+     | (.ok [_, b], _) => b.num == 12 && b.obj.start == 3 && b.obj.stop == 5 && isInt b.obj.val 22
+     | _ => false) = true := by decide
+
+/-- the hypotheses of `objstm_roundtrip` are satisfiable: this header layout and content -/
+def es17 : List HdrEntry := [⟨11, 0, [], [32]⟩, ⟨12, 6, [32], [32]⟩]
+example : encodeHeader es17 ++ [32] ++ content17 = view17 := by decide
+example : layoutsOK true es17 = true ∧ es17.map (·.ofs) = [0, 6] := by decide
+example : Extracts (readAt ctx0.depth content17) content17.length 0 (declared es17)
+    [(11, ⟨.int 11, 0, 2⟩), (12, ⟨.int 33, 6, 8⟩)] :=
+  ⟨_, _, rfl, by decide, by decide, rfl, _, _, rfl, by decide, by decide, rfl, rfl⟩
+
+/-- rejections on concrete inputs: offsets `0 0`; /N 3 with two pairs; /First 18 = |data|;
+    offset 1 inside `11`; id 12 predefined; offset 9 beyond the 8 content bytes -/
+def withHeader (h : Bytes) : Bytes := h ++ content17
+example : digest (objStmParse noDec 0 ctx0 dict17 (withHeader [49, 49, 32, 48, 32, 49, 50, 32, 48, 32]) 0) = none := by decide
+example : digest (objStmParse noDec 0 ctx0 [(kFirst, .int 10), (kN, .int 3), (kType, .name nObjStm)] view17 0) = none := by
+  decide
+example : digest (objStmParse noDec 0 ctx0 [(kFirst, .int 18), (kN, .int 2), (kType, .name nObjStm)] view17 0) = none := by
+  decide
+example : digest (objStmParse noDec 0 ctx0 dict17 (withHeader [49, 49, 32, 48, 32, 49, 50, 32, 49, 32]) 0) = none := by decide
+example : digest (objStmParse noDec 0 ⟨[((12, 0), .null)], ⟨0, 4⟩, false⟩ dict17 view17 0) = none := by decide
+example : digest (objStmParse noDec 0 ctx0 dict17 (withHeader [49, 49, 32, 48, 32, 49, 50, 32, 57, 32]) 0) = none := by decide
+/-- huge offsets do not panic: 2^63-1 is rejected by `set_cursor`, 2^63 by `IntegerP` -/
+example : (objStmParse noDec 0 ctx0 [(kFirst, .int 30), (kN, .int 2), (kType, .name nObjStm)]
+    (withHeader [49, 49, 32, 48, 32, 49, 50, 32, 57, 50, 50, 51, 51, 55, 50, 48, 51, 54, 56, 53, 52, 55, 55, 53, 56, 48, 55, 32, 32]) 0).1.isPanic = false := by decide
+
+end Parsley.C14
